@@ -40,3 +40,18 @@ claim("C01", "reference-model monitor: expression at each position of the real c
       "Every nominally well-typed tree with <=2/3 operator nodes and seeded deep trees at all eleven expression positions are compiled by the real compiler in monitored workers (hangs are caught by step hooks); the emitted expression is read with the target dialect's precedence and must have the PQL tree's value on every row of the product of small column domains including NULLs. Parenthesised variants must compile whenever the bare form does.",
       "Trusts sqlmini (lexer, parser, evaluator), pqlref.Eval and the shared value primitives of package val; opaque functions are modelled as injective hashes; SQL precedence is ClickHouse's.",
       "DESIGN.md section 5, C01")
+
+claim("C04", "metamorphic monitor: the real compiler's SQL for each hostile filling of each literal/name hole vs the same skeleton with a neutral filling, read by an independent SQL lexer in two quoting modes, plus decoding of the hole tokens",
+      "For 37 skeletons (every position a string, backtick identifier or number can take) and every filling of an exhaustive short hostile alphabet, injection idioms and seeded longer strings, the real compiler runs in monitored workers; the SQL token kind sequence must not depend on the content, no comment/error token may appear, only data tokens may change, and each decodes (ClickHouse rules; numbers as exact rationals) to the PQL value.",
+      "Trusts sqlmini.Lex (both modes), pqlref.Tokens for PQL-side decoding, and the choice of ClickHouse as the decoding dialect.",
+      "DESIGN.md section 5, C04")
+
+claim("C05", "invariant monitor on every successful Compile of all generators and a site-guided mutation corpus: lexical well-formedness in two modes, single statement, balanced brackets, independent parse, CTE wiring",
+      "Every successful compilation produced by typed and syntactic generators, the hand corpus and a per-worker coverage-guided (hook-site signature) mutation corpus is checked against the structural invariant of the property by an independent SQL lexer/parser; table names are taken from the real parser's tree by reflection.",
+      "Trusts sqlmini.Lex/Parse; programs calling pass-through functions whose names are SQL syntax or with colliding `as` names are skipped and counted.",
+      "DESIGN.md section 5, C05")
+
+claim("C06", "reference-model monitor: lexical scoping model over generated (parameters, lets, query) programs evaluated against the emitted SQL with placeholder bindings, plus metamorphic irrelevance checks for unused bindings, lets after the query and non-substitution positions",
+      "Seeded programs with parameter maps, let chains/shadowing and a typed expression using the bound names at every expression position are compiled by the real compiler; the emitted expression, evaluated with the same placeholder values, must equal the scoping model's value on enumerated rows; adding unused bindings or lets after the query, and bindings named like quoted/qualified/function/table/alias positions, must not change the SQL text.",
+      "Trusts sqlmini, pqlref.Eval and package val; a parameter's meaning is its snippet read as one operand.",
+      "DESIGN.md section 5, C06")
